@@ -18,6 +18,47 @@ def install(prog):
             return PathV(False, ())
         return to_path(a[0])
 
+    # ---- url::Url as an opaque string with file-path accessors (the crate's parser/normaliser is not modelled)
+    @B('Url::from_file_path', 'url::Url::from_file_path')
+    def b_url_from_file_path(ctx, a, callee):
+        p = to_path(D(a[0]))
+        if not p.absolute:
+            return err(UNIT)
+        return ok(Agg('Url', None, ('file://' + p.to_str(),)))
+
+    @B('Url::to_file_path', 'url::Url::to_file_path')
+    def b_url_to_file_path(ctx, a, callee):
+        u = D(a[0]).fields[0]
+        if type(u) is str and u.startswith('file://'):
+            return ok(to_path(u[len('file://'):]))
+        return err(UNIT)
+
+    @B('Url::parse', 'url::Url::parse')
+    def b_url_parse(ctx, a, callee):
+        u = D(a[0])
+        if type(u) is str and '://' in u:
+            return ok(Agg('Url', None, (u,)))
+        return err(Agg('url::ParseError', 0, ()))
+
+    @B('Url::as_str', 'url::Url::as_str', 'Url::path', 'url::Url::path', '<Url as Display>::fmt')
+    def b_url_as_str(ctx, a, callee):
+        u = D(a[0]).fields[0]
+        if callee.endswith('path'):
+            return u[len('file://'):] if u.startswith('file://') else u
+        if callee.endswith('fmt'):
+            from .bi_str import fmt_push
+            fmt_push(a[1], u)
+            return ok(UNIT)
+        return u
+
+    @B('<Url as Clone>::clone', '<url::Url as Clone>::clone')
+    def b_url_clone(ctx, a, callee):
+        return D(a[0])
+
+    @B('<Url as PartialEq>::eq', '<url::Url as PartialEq>::eq')
+    def b_url_eq(ctx, a, callee):
+        return D(a[0]).fields[0] == D(a[1]).fields[0]
+
     @B('Path::join')
     def b_path_join(ctx, a, callee):
         p = to_path(a[0])
